@@ -281,6 +281,12 @@ class ISISGrammar(PVLGrammar):
     group_keywords = {"GROUP": "END_GROUP"}
     object_pref_keywords = ("Object", "End_Object")
     object_keywords = {"OBJECT": "END_OBJECT"}
+    # Keep the combined table in step with the two narrowed ones, otherwise
+    # BEGIN_GROUP is still taken for a Begin-Aggregation-Statement, for
+    # which this grammar then has no class.
+    aggregation_keywords = dict()
+    aggregation_keywords.update(group_keywords)
+    aggregation_keywords.update(object_keywords)
 
     # A single-line comment that starts with the octothorpe (#) is not part
     # of PVL or ODL, but it is used when ISIS writes out comments.
